@@ -77,6 +77,8 @@ func runC17(w *World) *Result {
 	r.Rule("R-C17-append", "append flag true selects >>, otherwise >; selector feeds the write line; echo without -n", 3)
 	r.Rule("R-C17-args", "driver evaluates path, data and append flag once, in order, as used values, then calls WriteFile / ReadFile / Exists", 3)
 	ProtoRule(w, r, "R-C17-args", func(n string) bool { return n == "Write" || n == "Read" || n == "Exists" })
+	r.Rule("R-C17-fresh", "the arguments of write / read / exists are collected in a list of their own (no reused buffer of tree nodes)", 1)
+	ScratchReuseRule(w, r, "R-C17-fresh")
 	r.Rule("R-C17-wiring", "path, content and append flag reach the Converter parameter they belong to", 4)
 	WiringRule(w, r, "R-C17-wiring", func(m string) bool { return m == "WriteFile" || m == "ReadFile" || m == "Exists" })
 	r.Rule("R-C17-init", "the helper routines behind write/read start from a defined value on every invocation (a second read does not continue the first)", 1)
@@ -549,5 +551,40 @@ func c18Driver(w *World, r *Result) {
 				}
 			}
 		}
+	}
+}
+
+// ScratchReuseRule: the argument list of a builtin call is a fresh list. A list of tree nodes
+// that is cut back to length zero and filled again (field[:0], the buffer-reuse idiom) shares
+// its backing array with the list handed out before: a builtin call nested in a later
+// argument (write("out", read("in"))) overwrites the arguments the outer call has already
+// collected.
+func ScratchReuseRule(w *World, r *Result, rule string) {
+	pkg := w.Pkgs["parser"].Types
+	so := pkg.Scope().Lookup("Statement")
+	if so == nil {
+		r.Bad(rule, "scratch:facts", "-", "parser.Statement not found")
+		return
+	}
+	stmt, _ := so.Type().Underlying().(*types.Interface)
+	n := 0
+	for _, fn := range w.Funcs("parser") {
+		for _, b := range fn.Blocks {
+			for _, ins := range b.Instrs {
+				sl, ok := ins.(*ssa.Slice)
+				if !ok || sl.High == nil || !isConstInt(sl.High, 0) {
+					continue
+				}
+				st, ok := sl.Type().Underlying().(*types.Slice)
+				if !ok || stmt == nil || !types.Implements(st.Elem(), stmt) {
+					continue
+				}
+				n++
+				r.Bad(rule, fmt.Sprintf("scratch:%s#%d", FuncName(fn), n), w.Pos(sl.Pos()), "a list of tree nodes is cut back to length zero for reuse: it shares its backing array with the list handed out earlier, so collecting the arguments of a nested call overwrites those of the enclosing call")
+			}
+		}
+	}
+	if n == 0 {
+		r.Ok(rule, "scratch:none", "-", "no list of tree nodes is reused through [:0]: every argument list is its own")
 	}
 }
